@@ -465,7 +465,7 @@ Section Model.
     else
       do (li, s2) <- read_li_body v s1;
       (* assert fp.tell() <= end_pos ; fp.seek(end_pos) *)
-      if len s1 - len s2 <=? length then Ok (li, skipn (Z.to_nat length) s1) else Err AssertErr.
+      if len s1 - len s2 <=? length then Ok (li, skipz length s1) else Err AssertErr.
 
   (* ---------------------------------------------------------------- GlobalLayerMaskInfo *)
   Definition write_glmi (g : glmi) : W :=
@@ -518,7 +518,7 @@ Section Model.
     do nb <- len_bytes v;
     do (length, s1) <- read_u nb s;
     if length =? 0 then Ok (mkLAMI None None None, s1)
-    else do l <- read_lami_body v s1 length; Ok (l, skipn (Z.to_nat length) s1).   (* fp.seek(end_pos) *)
+    else do l <- read_lami_body v s1 length; Ok (l, skipz length s1).   (* fp.seek(end_pos) *)
 
   (* ---------------------------------------------------------------- ImageData, PSD *)
   Definition write_image_data (c : channel_data) : W := write_channel_data c.
